@@ -151,9 +151,13 @@ def do_golden_runs():
         logging.info('starting initial run...')
     logging.info('')
 
-    __GOLDEN = execute(options.args().cmd,
-                       options.args().infile,
-                       options.args().timeout)
+    try:
+        __GOLDEN = execute(options.args().cmd,
+                           options.args().infile,
+                           options.args().timeout)
+    except OSError as e:
+        logging.error(f'Unable to run the command: {e}')
+        sys.exit(1)
 
     logging.info(f'golden exit: {__GOLDEN.exit}')
     logging.info(f'golden err:\n{__GOLDEN.err}')
@@ -184,9 +188,13 @@ def do_golden_runs():
             f'automatic timeout: {options.args().timeout:.2f} seconds')
 
     if options.args().cmd_cc:
-        __GOLDEN_CC = execute(options.args().cmd_cc,
-                              options.args().infile,
-                              options.args().timeout_cc)
+        try:
+            __GOLDEN_CC = execute(options.args().cmd_cc,
+                                  options.args().infile,
+                                  options.args().timeout_cc)
+        except OSError as e:
+            logging.error(f'Unable to run the cross-check command: {e}')
+            sys.exit(1)
 
         logging.info("")
         logging.info(f'golden exit (cc): {__GOLDEN_CC.exit}')
